@@ -73,6 +73,9 @@ pub enum Op {
     LockHeld,
     LockRelease,
     CellInsert,
+    /// announced right *after* an atomic or cell operation has been performed: a scheduling point
+    /// between that operation and whatever the calling code does next with other shared state
+    Done,
 }
 
 static HOOK: once_cell::sync::OnceCell<fn(Op, usize)> = once_cell::sync::OnceCell::new();
@@ -117,17 +120,22 @@ impl AtomicUsize {
 
     pub fn load(&self, order: Ordering) -> usize {
         yield_point(Op::Load, self.addr());
-        self.0.load(order)
+        let result = self.0.load(order);
+        yield_point(Op::Done, self.addr());
+        result
     }
 
     pub fn store(&self, value: usize, order: Ordering) {
         yield_point(Op::Store, self.addr());
-        self.0.store(value, order)
+        self.0.store(value, order);
+        yield_point(Op::Done, self.addr());
     }
 
     pub fn swap(&self, value: usize, order: Ordering) -> usize {
         yield_point(Op::Rmw, self.addr());
-        self.0.swap(value, order)
+        let result = self.0.swap(value, order);
+        yield_point(Op::Done, self.addr());
+        result
     }
 
     pub fn compare_exchange(
@@ -138,7 +146,9 @@ impl AtomicUsize {
         failure: Ordering,
     ) -> Result<usize, usize> {
         yield_point(Op::Rmw, self.addr());
-        self.0.compare_exchange(current, new, success, failure)
+        let result = self.0.compare_exchange(current, new, success, failure);
+        yield_point(Op::Done, self.addr());
+        result
     }
 
     pub fn compare_exchange_weak(
@@ -150,7 +160,9 @@ impl AtomicUsize {
     ) -> Result<usize, usize> {
         yield_point(Op::Rmw, self.addr());
         // never fails spuriously, so that replays are deterministic
-        self.0.compare_exchange(current, new, success, failure)
+        let result = self.0.compare_exchange(current, new, success, failure);
+        yield_point(Op::Done, self.addr());
+        result
     }
 
     pub fn fetch_update<F>(
@@ -174,37 +186,51 @@ impl AtomicUsize {
 
     pub fn fetch_add(&self, value: usize, order: Ordering) -> usize {
         yield_point(Op::Rmw, self.addr());
-        self.0.fetch_add(value, order)
+        let result = self.0.fetch_add(value, order);
+        yield_point(Op::Done, self.addr());
+        result
     }
 
     pub fn fetch_sub(&self, value: usize, order: Ordering) -> usize {
         yield_point(Op::Rmw, self.addr());
-        self.0.fetch_sub(value, order)
+        let result = self.0.fetch_sub(value, order);
+        yield_point(Op::Done, self.addr());
+        result
     }
 
     pub fn fetch_max(&self, value: usize, order: Ordering) -> usize {
         yield_point(Op::Rmw, self.addr());
-        self.0.fetch_max(value, order)
+        let result = self.0.fetch_max(value, order);
+        yield_point(Op::Done, self.addr());
+        result
     }
 
     pub fn fetch_min(&self, value: usize, order: Ordering) -> usize {
         yield_point(Op::Rmw, self.addr());
-        self.0.fetch_min(value, order)
+        let result = self.0.fetch_min(value, order);
+        yield_point(Op::Done, self.addr());
+        result
     }
 
     pub fn fetch_and(&self, value: usize, order: Ordering) -> usize {
         yield_point(Op::Rmw, self.addr());
-        self.0.fetch_and(value, order)
+        let result = self.0.fetch_and(value, order);
+        yield_point(Op::Done, self.addr());
+        result
     }
 
     pub fn fetch_or(&self, value: usize, order: Ordering) -> usize {
         yield_point(Op::Rmw, self.addr());
-        self.0.fetch_or(value, order)
+        let result = self.0.fetch_or(value, order);
+        yield_point(Op::Done, self.addr());
+        result
     }
 
     pub fn fetch_xor(&self, value: usize, order: Ordering) -> usize {
         yield_point(Op::Rmw, self.addr());
-        self.0.fetch_xor(value, order)
+        let result = self.0.fetch_xor(value, order);
+        yield_point(Op::Done, self.addr());
+        result
     }
 }
 
@@ -248,13 +274,17 @@ impl<T> OnceCell<T> {
 
     pub fn get(&self) -> Option<&T> {
         yield_point(Op::Load, self.addr());
-        self.0.get()
+        let result = self.0.get();
+        yield_point(Op::Done, self.addr());
+        result
     }
 
     #[cfg(feature = "std")]
     pub fn wait(&self) -> &T {
         yield_point(Op::Load, self.addr());
-        self.0.wait()
+        let result = self.0.wait();
+        yield_point(Op::Done, self.addr());
+        result
     }
 
     pub fn get_mut(&mut self) -> Option<&mut T> {
@@ -263,12 +293,16 @@ impl<T> OnceCell<T> {
 
     pub fn set(&self, value: T) -> Result<(), T> {
         yield_point(Op::CellInsert, self.addr());
-        self.0.set(value)
+        let result = self.0.set(value);
+        yield_point(Op::Done, self.addr());
+        result
     }
 
     pub fn try_insert(&self, value: T) -> Result<&T, (&T, T)> {
         yield_point(Op::CellInsert, self.addr());
-        self.0.try_insert(value)
+        let result = self.0.try_insert(value);
+        yield_point(Op::Done, self.addr());
+        result
     }
 
     pub fn get_or_init<F>(&self, f: F) -> &T
@@ -276,7 +310,9 @@ impl<T> OnceCell<T> {
         F: FnOnce() -> T,
     {
         yield_point(Op::CellInsert, self.addr());
-        self.0.get_or_init(f)
+        let result = self.0.get_or_init(f);
+        yield_point(Op::Done, self.addr());
+        result
     }
 
     pub fn get_or_try_init<F, E>(&self, f: F) -> Result<&T, E>
@@ -284,7 +320,9 @@ impl<T> OnceCell<T> {
         F: FnOnce() -> Result<T, E>,
     {
         yield_point(Op::CellInsert, self.addr());
-        self.0.get_or_try_init(f)
+        let result = self.0.get_or_try_init(f);
+        yield_point(Op::Done, self.addr());
+        result
     }
 
     pub fn take(&mut self) -> Option<T> {
